@@ -122,7 +122,11 @@ class CoreBench:
             clks.update(clocks)
         self.sim = Sim(dut, clks, track_multireg=track_multireg)
         c = dut.controller
-        self.align = c.interface.address_align
+        # burst alignment from the JEDEC burst lengths (own table), not from the design under test: one port word is one burst of
+        # nphases (SDR) or BL (DDRx) columns
+        bl = ps.nphases if ps.memtype == "SDR" else {"DDR": 4, "LPDDR": 4, "DDR2": 4, "DDR3": 8, "DDR4": 8}[ps.memtype]
+        self.align = log2i(bl)
+        self.dut_align = c.interface.address_align
         self.nphases = ps.nphases
         self.data_bytes = c.interface.data_width // 8
         self.rankbits = log2i(ps.nranks)
@@ -415,6 +419,10 @@ def run_core(scn, want=("c01", "c02", "c03", "c04", "c05", "c06")):
         cap_override = int(scn["limits"]["run_for_bounds"] * B) + 200
     else:
         cap_override = None
+    if tb.dut_align != tb.align:
+        viol.add("c06.address_width", "controller aligns port addresses to %d column bits; one %d-bit port word is a burst of %d columns "
+                 "(%s, %d phases): addresses %s" % (tb.dut_align, tb.data_bytes * 8, 1 << tb.align, tb.phy_settings.memtype, tb.nphases,
+                                                    "share a burst" if tb.dut_align < tb.align else "skip columns"))
     for i, port in enumerate(tb.ports):
         if port.data_width == tb.data_bytes * 8 and port.address_width != amap.aw:
             viol.add("c06.address_width", "port %d has %d address bits, the device has %d (rank+bank+row+column-burst) bits: the port is not onto the device"
@@ -517,6 +525,28 @@ def run_core(scn, want=("c01", "c02", "c03", "c04", "c05", "c06")):
             if rc * tb.period > limit_ps:
                 viol.add("c04.refresh_late", "refresh #%d issued at %.0f ns > (%d+%d)*tREFI(%.1f ns) + L(%d cycles)"
                          % (k + 1, rc * tb.period / 1000.0, k + 1, postponing, trefi_ps / 1000.0, L))
+                break
+        # steady-state rate: when the refresher visibly runs as a free-running periodic process (>= 16 consecutive refresh bursts
+        # of equal size at exactly equal spacing - what happens whenever traffic does not disturb it), that spacing is its period,
+        # and a period above the datasheet interval makes refresh #k later than any (k + postponing)*tREFI + L for large enough k
+        bursts = []
+        for rc in dram.refs:
+            if bursts and rc - bursts[-1][0] < t.tREFI // 2:
+                bursts[-1][1] += 1
+            else:
+                bursts.append([rc, 1])
+        run_len, j0 = 0, 0
+        for j in range(1, len(bursts)):
+            if (j >= 2 and bursts[j][0] - bursts[j - 1][0] == bursts[j - 1][0] - bursts[j - 2][0]
+                    and bursts[j][1] == bursts[j - 1][1] == bursts[j - 2][1]):
+                run_len += 1
+            else:
+                run_len, j0 = 0, j
+            if run_len >= 16:
+                T, q = bursts[j][0] - bursts[j - 1][0], bursts[j][1]
+                if T * tb.period > q * trefi_ps * (1 + 1e-9):
+                    viol.add("c04.refresh_rate", "steady refresh period: %d refresh(es) every %d cycles = one per %.3f ns > datasheet tREFI %.3f ns "
+                             "(refresh bursts %d..%d equally spaced)" % (q, T, T * tb.period / 1000.0 / q, trefi_ps / 1000.0, j0, j))
                 break
         # at the end of the run: refreshes owed
         end_ps = cyc * tb.period
